@@ -270,6 +270,16 @@ def auto_discharge(world, fn, s, const_only_fns):
                     d = roots(body).get(l)
                     return tys[l] in ("&mut usize",) and d is not None and d[0] == "call" and \
                         M.callee_name(d[1]).rsplit("::", 1)[-1] in ("or_insert", "or_default", "or_insert_with")
+                def is_modify_counter(o):
+                    # `entry(k).and_modify(|count| *count += 1)`: the closure's `&mut usize` parameter is the same occurrence counter
+                    if o.get("k") not in ("copy", "move") or isinstance(o["pl"], int) or M.pl_proj(o["pl"]) != ["*"]:
+                        return False
+                    l = M.pl_local(o["pl"])
+                    return tys[l] == "&mut usize" and 1 <= l <= body.get("argc", 0) and "{closure" in fn["path"].rsplit("::", 1)[-1] and \
+                        any(M.callee_name(c_).rsplit("::", 1)[-1] == "and_modify" and "Entry" in M.callee_name(c_)
+                            for g_ in [world.lookup(fn["path"].rsplit("::", 1)[0])] if g_ is not None and "body" in g_ for _, c_ in M.calls(g_["body"]))
+                if (small(a) and is_modify_counter(b)) or (small(b) and is_modify_counter(a)):
+                    return "ADD-SMALL: occurrence counter behind Entry::and_modify plus a small constant (one increment per processed item; cannot reach usize::MAX)"
                 if (small(a) and is_entry_counter(b)) or (small(b) and is_entry_counter(a)):
                     return "ADD-SMALL: occurrence counter behind the Entry API plus a small constant (one increment per processed item; cannot reach usize::MAX)"
                 if (small(a) and is_usize(b)) or (small(b) and is_usize(a)):
